@@ -10,7 +10,7 @@ import os, re, random, shutil, hashlib
 from lib import core, pptok
 
 LEVEL = 'exploration'
-MIN_COUNTS = {'cases_compared': (1500, 45000), 'determinism_runs': (100, 2000), 'memcheck_runs': (2, 30)}
+MIN_COUNTS = {'cases_compared': (1800, 45000), 'determinism_runs': (100, 2000), 'memcheck_runs': (2, 30)}
 
 # the stages run at different instants: __DATE__/__TIME__ are pinned by a preloaded time() so that they cannot differ
 FIXED_CLOCK = {'LD_PRELOAD': os.path.join(core.VERIF, 'build', 'faketime.so'), 'VERIF_TIME_FIXED': '1790000000'}
@@ -162,6 +162,25 @@ def run(ctx):
         p = os.path.join(gen, 'hgrid%d.c' % k)
         open(p, 'w').write('\n'.join(g.replace('hgNN', 'hg%d' % (k + j)) for j, g in enumerate(grid[k:k + 8])) + '\n')
         corpus.append((p, [], 'gen-hostile-const'))
+    # two erroneous operands in one constant expression: which diagnostic comes first must not depend on the host compiler's
+    # evaluation order (every binary operator x ordered pair of distinct invalid operands x context)
+    bad_ops = ['nonconst_a', 'nonconst_b', 'fn()', '1/0', '2%0', '*ptr', '(nonconst_a = 1)', 'nonconst_a++', '1.5', '"s"', '&nonconst_a', '(char)nonconst_b']
+    ctxs = ['int r = %s;', 'enum { R = %s };', 'int r[%s];', 'int sw(int c) { switch (c) { case %s: return 1; } return 0; }', '_Static_assert(%s, "m");', 'struct { int b : %s; } r;',
+            '_Alignas(%s) int r;', '#if %s\n#endif']
+    inv = []
+    for op in ('+', '-', '*', '/', '%', '&', '|', '^', '<<', '>>', '==', '!=', '<', '<=', '&&', '||', '?:', ','):
+        for a in bad_ops:
+            for b in bad_ops:
+                if a != b:
+                    e = '(%s) ? (%s) : (%s)' % (a, b, a) if op == '?:' else '(%s) %s (%s)' % (a, op, b)
+                    inv.append(e)
+    sel = inv if ctx.tier == 'thorough' else rng.sample(inv, 260)
+    for k, e in enumerate(sel):
+        p = os.path.join(gen, 'inv%d.c' % k)
+        cx = ctxs[k % len(ctxs)]
+        e2 = e.replace('nonconst_a', 'A').replace('nonconst_b', 'B').replace('fn()', 'C').replace('*ptr', 'D').replace('"s"', '1') if cx.startswith('#if') else e
+        open(p, 'w').write('int nonconst_a, nonconst_b, *ptr; int fn(void);\n' + cx % e2 + '\n')
+        corpus.append((p, [], 'gen-invalid-const'))
     nm = ctx.scale(400, 20000)
     tsrc = [(f, open(os.path.join(snap, 'test', f), errors='surrogateescape').read()) for f in tests]
     for k in range(nm):
@@ -177,7 +196,7 @@ def run(ctx):
             osets = [['-E']]
         elif kind in ('own', 'test'):
             osets = OPTSETS if ctx.tier == 'thorough' else [OPTSETS[0], OPTSETS[2], rng.choice(OPTSETS[1:])]
-        elif kind in ('mutant', 'gen-hostile-const'):
+        elif kind in ('mutant', 'gen-hostile-const', 'gen-invalid-const'):
             osets = [['-S']]
         else:
             osets = [['-S'], rng.choice([['-c'], ['-E'], ['-S', '-fPIC']])]
